@@ -1219,7 +1219,7 @@ pub fn exec_op(dir: &Path, idx: usize, op: &IoOp, stats: &mut Stats, pre: Option
             }
         }
         Ok(Err(e)) => {
-            rep.result = format!("Err({})", &e[..e.len().min(120)]);
+            rep.result = format!("Err({})", crate::rng::head(e, 120));
             stats.result_err += 1;
             if !hard {
                 stats.bump("note:err_without_hard_fault", 1);
